@@ -34,6 +34,7 @@ def check(ctx, tier):
     viewrules.col_slice_model(ctx, tk, "C02.k")
     viewrules.int_column_model(ctx, tk, "C02.k")
     viewrules.scalar_column_is_python_int(ctx, tk, "C02.k")
+    viewrules.ends_model(ctx, tk, "C02.k")
     viewrules.column_units(ctx, tk, "C02.d")
     viewrules.step_propagation(ctx, tk, "C02.d")
     coh = ctx.cached("coherence", lambda: Coherence(tk))
